@@ -48,6 +48,7 @@ Put(s, i, v) == [s EXCEPT ![i+1] = v]
 VSR(s, i) == LET n == Len(s) IN [k \in 1..(n-1) |-> IF k = i+1 THEN s[n] ELSE s[k]]
 Iota(n)   == [k \in 1..n |-> k-1]
 
+Entries(s) == [i \in 1..Len(s.keys) |-> <<s.keys[i], s.pri[i]>>]
 Has(s, k)   == \E i \in 1..Len(s.keys) : s.keys[i] = k
 IdxOf(s, k) == (CHOOSE i \in 1..Len(s.keys) : s.keys[i] = k) - 1   \* first slot holding k
 KeySet(s)   == {s.keys[i] : i \in 1..Len(s.keys)}
@@ -208,6 +209,21 @@ ExtendLoop(s, pairs, f) ==
 StoreExtend(s, pairs, f) == ExtendLoop(s, pairs, f)
 StoreFromIter(pairs, f)  == ExtendLoop(Empty, pairs, f)
 
+\* serde visit_seq (store.rs, mod serde): map.insert keeps the FIRST key and takes the LAST priority;
+\* the index tables grow only for a new item (since fix af03d4b; before, they grew for every pair)
+RECURSIVE DeLoop(_,_,_)
+DeLoop(s, pairs, f) ==
+  IF pairs = <<>> THEN Ok(s, f, <<>>) ELSE
+  IF f.look = 0 THEN Panic(s, f) ELSE
+  LET k == pairs[1][1]  p == pairs[1][2]  f1 == TickLook(f) IN
+  IF Has(s, k) THEN DeLoop([s EXCEPT !.pri = Put(@, IdxOf(s, k), p)], Tail(pairs), f1)
+  ELSE DeLoop([s EXCEPT !.keys = Append(@, k), !.pri = Append(@, p),
+                        !.qp = Append(@, s.size), !.heap = Append(@, s.size),
+                        !.size = @ + 1], Tail(pairs), f1)
+StoreDeserialize(pairs, f) == DeLoop(Empty, pairs, f)
+\* Serialize: the entries in slot order, announced length = size
+StoreSerialize(s) == [len |-> s.size, entries |-> Entries(s)]
+
 \* ------------------------------------------------------------------ append
 \* store.rs:474.  Returns [a, b] = (self, other) afterwards inside st.
 RECURSIVE AppendLoop(_,_,_)
@@ -219,7 +235,6 @@ AppendLoop(s, ents, f) ==            \* ents: sequence of <<key, pri>> drained f
   ELSE AppendLoop([s EXCEPT !.keys = Append(@, k), !.pri = Append(@, p),
                             !.heap = Append(@, s.size), !.qp = Append(@, s.size),
                             !.size = @ + 1], Tail(ents), f1)
-Entries(s) == [i \in 1..Len(s.keys) |-> <<s.keys[i], s.pri[i]>>]
 StoreAppend(a, b, f) ==
   LET swapped == b.size > a.size
       self  == IF swapped THEN b ELSE a
